@@ -41,6 +41,10 @@ func newLeafPool() []error {
 		new(cfgerrors.IncompatibleWildcardResponseHeaderNameError),
 		&foreignErr{1}, &foreignErr{2}, errors.New("plain"),
 		&cfgerrors.UnacceptableOriginPatternError{Value: "x", Reason: "invalid"}, // equal to #0 but a different pointer
+		// leaves that WRAP something (single %w): they do not implement Unwrap() []error, so they are leaves
+		fmt.Errorf("tenant acme: %w", errors.New("inner")),
+		fmt.Errorf("tenant acme: %w", errors.Join(errors.New("j1"), &cfgerrors.UnacceptableMethodError{Value: "TRACK", Reason: "forbidden"})),
+		fmt.Errorf("outer: %w", fmt.Errorf("middle: %w", errors.Join(errors.New("deep")))),
 	}
 }
 
@@ -91,14 +95,17 @@ func flatten(err error, out *[]error) {
 	*out = append(*out, err)
 }
 
-func genENode(t *rapid.T, depth int) ENode {
-	if depth == 0 || chance(t, "leaf", 35) {
-		return ENode{Leaf: uniform(t, "leafidx", 12)}
+// genENode draws a join tree under a node budget (so that deep and wide
+// shapes stay cheap): when the budget runs out, remaining nodes are leaves.
+func genENode(t *rapid.T, depth int, budget *int) ENode {
+	*budget--
+	if depth == 0 || *budget <= 0 || chance(t, "leaf", 35) {
+		return ENode{Leaf: uniform(t, "leafidx", 15)}
 	}
 	n := ENode{}
-	k := pick(t, "fanout", []int{1, 1, 2, 2, 3, 4, 5})
+	k := pick(t, "fanout", []int{1, 1, 2, 2, 3, 4, 5, 7, 9, 13})
 	for i := 0; i < k; i++ {
-		n.Kids = append(n.Kids, genENode(t, depth-1))
+		n.Kids = append(n.Kids, genENode(t, depth-1, budget))
 	}
 	return n
 }
@@ -108,7 +115,8 @@ func c19Gen(t *rapid.T) C19Case {
 		cfg := genAtomCfg(t, mixMany)
 		return C19Case{Cfg: &cfg, Break: intIn(t, "break", -1, 6)}
 	}
-	tree := genENode(t, intIn(t, "depth", 0, 6))
+	budget := pick(t, "budget", []int{8, 30, 30, 120, 300})
+	tree := genENode(t, pick(t, "depth", []int{0, 1, 2, 3, 4, 5, 6, 8, 11}), &budget)
 	n := tree.leaves()
 	return C19Case{Tree: tree, Break: intIn(t, "break", -1, n)}
 }
@@ -223,11 +231,11 @@ func c19Check(c C19Case, rec *Recorder) *Disc {
 
 func c19Prop() Prop[C19Case] {
 	return Prop[C19Case]{ID: "C19", Gen: c19Gen, Check: c19Check,
-		Rule: "generator: join trees built recursively with errors.Join (depth <= 6, fan-out 1-5, joins of one, nested joins, the same leaf pointer at several positions, equal-but-distinct leaves) from non-nil leaves (the eight cfgerrors types and foreign errors) x break position in [-1, leaves]; " +
+		Rule: "generator: join trees built recursively with errors.Join (depth up to 11, fan-out up to 13, node budget up to 300, joins of one, nested joins, the same leaf pointer at several positions, equal-but-distinct leaves) from non-nil leaves (the eight cfgerrors types, foreign errors, and single-%w wrappers of plain errors and of joins - which are leaves, not joins) x break position in [-1, leaves]; " +
 			"25% of cases instead use the error returned by NewMiddleware for a many-violation configuration. Oracle: full iteration yields exactly the leaves as a multiset by identity (order is documented as unspecified); " +
 			"with a consumer that stops after k items: exactly k+1 calls to yield, none afterwards (hand-driven iterator and range+break); for configuration errors: count == number of individual violations. " +
 			"non-trivial = depth >= 2 with the break strictly before the last leaf, or a configuration error with >= 2 leaves; distinct by (tree, break).",
-		Assumptions: []string{"All(nil), %w-wrapped joins and errors.Join() of nothing are outside the documented contract and not generated"}}
+		Assumptions: []string{"All(nil), multi-%w wrappers (which implement Unwrap() []error themselves) and errors.Join() of nothing are outside the documented contract and not generated"}}
 }
 
 func TestC19(t *testing.T) { c19Prop().Run(t) }
